@@ -250,25 +250,35 @@ def export(prog, decorated: bool, tap: Optional[Tap] = None):
             ps.PLUGIN_REGISTRY.update(saved)
 
 
+def _feed_sets(prog):
+    return prog.feed_sets if getattr(prog, "feed_sets", None) else [prog.feeds]
+
+
 def run_model(proto, prog) -> list[np.ndarray]:
+    """ORT outputs for every binding of the symbolic dims, concatenated."""
     import irtools
     names = [i.name for i in proto.graph.input]
-    feeds = {}
-    pos = list(prog.feeds)
-    for n in names:
-        if prog.input_params and n in prog.input_params:
-            feeds[n] = np.asarray(prog.input_params[n])
-        else:
-            feeds[n] = pos.pop(0)
-    return irtools.run_ort(proto, feeds)
+    outs: list[np.ndarray] = []
+    for fs in _feed_sets(prog):
+        feeds = {}
+        pos = list(fs)
+        for n in names:
+            if prog.input_params and n in prog.input_params:
+                feeds[n] = np.asarray(prog.input_params[n])
+            else:
+                feeds[n] = pos.pop(0)
+        outs += irtools.run_ort(proto, feeds)
+    return outs
 
 
 def run_jax(prog) -> list[np.ndarray]:
     import jax
     kw = dict(prog.input_params or {})
-    out = prog.fn(*prog.feeds, **kw)
-    leaves = jax.tree_util.tree_leaves(out)
-    return [np.asarray(v) for v in leaves]
+    outs: list[np.ndarray] = []
+    for fs in _feed_sets(prog):
+        out = prog.fn(*fs, **kw)
+        outs += [np.asarray(v) for v in jax.tree_util.tree_leaves(out)]
+    return outs
 
 
 def check_functions(proto) -> list[str]:
